@@ -80,7 +80,14 @@ func ruleIndexMapShape(c *eng.Ctx) {
 			}
 			c.Check(okHead, rule, "add:bucket-head-is-new-entry", add.Pos(), "m.buckets[h] = bloomInsertID(...)")
 			a0, a1, a2 := eng.Arg(bloomIns[0], 0), eng.Arg(bloomIns[0], 1), eng.Arg(bloomIns[0], 2)
-			okArgs := resultOf(a0, newE[0], 1) && mentionsFieldDeepArgs(a1, nextF) && eng.IsParam(add, "id")(a2)
+			// the old head: read back from e.next, or the very value that was stored there
+			oldHead := mentionsFieldDeepArgs(a1, nextF)
+			for _, st := range c.P.FieldStoresIn(add, nextF) {
+				if bucketLoad(st.Val) && eng.SameAs(st.Val)(a1) {
+					oldHead = true
+				}
+			}
+			okArgs := resultOf(a0, newE[0], 1) && oldHead && eng.IsParam(add, "id")(a2)
 			c.Check(okArgs, rule, "add:bloom-of-new-head", bloomIns[0].Pos(), "the new head is (index of the new entry, bloom bits of the old head, key)")
 			// numentries++ on every path
 			cnt := c.P.FieldStoresIn(add, c.P.Field(pkgIndex+".indexMap", "numentries"))
